@@ -205,12 +205,12 @@ def valOK (d : Backend) (v : Val) : Bool :=
   | _ => true
 
 /-- what a piece must satisfy on its own: renderer text without quote characters or marks, no
-panic marker, representable values, and caller-supplied raw text only when it is a non-empty digit
+panic marker, representable values, and caller-supplied raw text only when it is non-empty plain
 string (which also excludes the template expansions of `CustomWithExpr`: they start with an empty
 raw piece) -/
 def contentOK (d : Backend) (inl : Bool) : Piece → Bool
   | .s t => t.toList.all (plainChar d)
-  | .raw t => !t.isEmpty && t.all isDigit
+  | .raw t => !t.isEmpty && t.all (plainChar d)
   | .id _ => true
   | .c v => valOK d v
   | .p v => !inl || valOK d v
